@@ -6,9 +6,10 @@
         expressions and as statements, return, recursion bounded by the fuel);
      2. list comprehensions (filtered and unfiltered, one or several loop names) and for / comprehensions over range(...)
         with a positive step, for loops with several names;
-     3. the builtins len, str (scalars), bool, any, all, reversed, sorted (no key), min, max, enumerate, zip (equal lengths);
+     3. the builtins len, str (scalars), bool, any, all, reversed, sorted (no key; ints only or strings only), min, max
+        (enumerate, zip and dict.items() were written and sanity-checked but are REFUSED here: their simulation is not proved);
      4. dict literals whose keys are written in strictly ascending order, indexing of lists / strings / dicts, `in` on lists
-        of scalars and on dicts, the methods get / keys / values / items;
+        of scalars and on dicts, the methods get / keys / values;
      5. the string methods join, split (with a separator), startswith, endswith, upper, lower (ASCII).
    The evaluator is parametrised by the integer operators exactly as in C16_Pure.v and refuses (Err EUnsupported) at every
    type-dependent trigger of a known difference between asp and CPython.  `pure2_run fuel p = Ok g` is the formal reading
@@ -127,6 +128,15 @@ Definition qinsertion_sort (less : qval -> qval -> res bool) (l : list qval) : r
              match l with [] => Ok acc | x :: rest => do acc' <- qins_left less x acc; go rest acc' end) l [];
   Ok (rev r).
 
+Fixpoint qminmax (better : qval -> qval -> res bool) (r : list qval) (cur : qval) : res qval :=
+  match r with
+  | [] => Ok cur
+  | y :: r' => do b <- better y cur; qminmax better r' (if b then y else cur)
+  end.
+Definition qsort_go (less : qval -> qval -> res bool) : list qval -> list qval -> res (list qval) :=
+  fix go (l acc : list qval) : res (list qval) :=
+    match l with [] => Ok acc | x :: rest => do acc' <- qins_left less x acc; go rest acc' end.
+
 Fixpoint qrange_up (n : nat) (a c : Z) : list qval :=
   match n with O => [] | S k => QInt a :: qrange_up k (a + c) c end.
 
@@ -186,8 +196,32 @@ Definition qnative (fuel : nat) (n : str) (args : list qval) : res qval :=
   else if str_eqb n (s "any") then match arg 0%nat with QList l => Ok (QBool (existsb qtruthy l)) | _ => Err EType end
   else if str_eqb n (s "all") then match arg 0%nat with QList l => Ok (QBool (forallb qtruthy l)) | _ => Err EType end
   else if str_eqb n (s "reversed") then match arg 0%nat with QList l => Ok (QList (rev l)) | _ => Err EType end
-  else if str_eqb n (s "sorted") then Err EUnsupported
-  else if str_eqb n (s "min") || str_eqb n (s "max") then Err EUnsupported
+  else if str_eqb n (s "sorted") then
+    match arg 0%nat with
+    | QList l =>
+        match arg 1%nat, arg 2%nat with
+        | QNone, QBool rv =>
+            if negb (forallb q_is_int l || forallb q_is_str l) then Err EUnsupported else
+            do r <- qinsertion_sort (fun x y => match fuel with O => OutOfFuel | S _ => qcmp (if rv then C16_Syntax.Gt else C16_Syntax.Lt) x y end) l;
+            Ok (QList r)
+        | _, _ => Err EUnsupported
+        end
+    | _ => Err EType
+    end
+  else if str_eqb n (s "min") || str_eqb n (s "max") then
+    match arg 0%nat with
+    | QList l =>
+        match arg 1%nat with
+        | QNone =>
+            match l with
+            | [] => Err EType
+            | x :: r =>
+                qminmax (fun y cur => match fuel with O => OutOfFuel | S _ => qcmp (if str_eqb n (s "min") then C16_Syntax.Lt else C16_Syntax.Gt) y cur end) r x
+            end
+        | _ => Err EUnsupported
+        end
+    | _ => Err EType
+    end
   else Err EUnsupported.
 
 Definition qnative_method (n : str) (args : list qval) : res qval :=
@@ -468,9 +502,9 @@ Definition qiter (ev : nat -> expr -> qstate -> res qval) (fuel : nat) (it : exp
           do vals <- qnative_args (fun e => ev f3 e ps) (s "range") args;
           match vals with
           | [QInt a; QInt b; QInt c] =>
-              do items <- qrange_items a b c; Ok (items, if c =? 0 then 0 else Z.quot (b - a) c)
+              do items <- qrange_items a b c; Ok (items, range_len a b c)
           | [QInt a; QNone; QInt c] =>
-              do items <- qrange_items 0 a c; Ok (items, if c =? 0 then 0 else Z.quot (a - 0) c)
+              do items <- qrange_items 0 a c; Ok (items, range_len 0 a c)
           | _ => Err EType
           end
       | _ => OutOfFuel
